@@ -590,6 +590,26 @@ class Reach:
     def __init__(self, fn):
         self.fn = fn
         self.flags = self._flag_locals()
+        self.multi = self._multi_switched()
+        self.flags |= self.multi
+
+    def _multi_switched(self):
+        """bool locals tested by two or more switches (directly or through a copy temp): the value
+        learnt at the first test is remembered, so `if a && x {..} if !a {..}` is not conflated"""
+        fn = self.fn
+        defs = fn.defs()
+        cnt = defaultdict(int)
+        for b in fn.blocks:
+            t = b['t']
+            if b['cleanup'] or t[0] != 'switch' or t[4] != 'bool' or t[1][0] not in ('c', 'm') or not isinstance(t[1][1], int):
+                continue
+            l = t[1][1]
+            src = l
+            ds = defs.get(l, [])
+            if len(ds) == 1 and ds[0][2] == 'assign' and ds[0][3][0] == 'use' and ds[0][3][1][0] in ('c', 'm') and isinstance(ds[0][3][1][1], int):
+                src = ds[0][3][1][1]
+            cnt[src] += 1
+        return {l for l, n in cnt.items() if n >= 2 and l > fn.argc}
 
     def _flag_locals(self):
         fn = self.fn
@@ -641,7 +661,7 @@ class Reach:
             if st[0] == '=':
                 pl = st[1]
                 l = pl if isinstance(pl, int) else pl[0]
-                if l not in self.flags:
+                if l not in self.flags and not (st[2][0] == 'use' and st[2][1][0] in ('c', 'm') and isinstance(st[2][1][1], int) and st[2][1][1] in self.multi):
                     continue
                 if not isinstance(pl, int):
                     val.pop(l, None)
@@ -660,6 +680,8 @@ class Reach:
                     v = val.get(rv[1])
                 elif rv[0] == 'use' and rv[1][0] in ('c', 'm') and isinstance(rv[1][1], int):
                     v = val.get(rv[1][1])
+                    if v is None and rv[1][1] in self.multi:
+                        v = ('a', rv[1][1])
                 if v is None:
                     val.pop(l, None)
                 else:
@@ -695,21 +717,40 @@ class Reach:
             val = self._exec_block(bb, dict(fv))
             t = fn.blocks[bb]['t']
             succs = fn.succs(bb)
+            learn = None
             if t[0] == 'switch' and t[1][0] in ('c', 'm') and isinstance(t[1][1], int) and t[1][1] in val:
-                v = val[t[1][1]][1]
-                tgt = t[3]
-                for av, ab in t[2]:
-                    if av == v:
-                        tgt = ab
-                succs = [tgt]
-                if t[1][0] == 'm':
+                kind, v = val[t[1][1]]
+                if kind == 'a':
+                    learn = v          # branch both ways, remembering the tested local's value
                     val.pop(t[1][1], None)
+                else:
+                    tgt = t[3]
+                    for av, ab in t[2]:
+                        if av == v:
+                            tgt = ab
+                    succs = [tgt]
+                    if t[1][0] == 'm':
+                        val.pop(t[1][1], None)
+            elif t[0] == 'switch' and t[4] == 'bool' and t[1][0] in ('c', 'm') and isinstance(t[1][1], int) and t[1][1] in self.multi:
+                learn = t[1][1]
             props = fn.edge_props(bb) if t[0] == 'switch' else {}
             for s in succs:
                 if fn.blocks[s]['cleanup']:
                     continue
                 if edge_ok is not None and not edge_ok(bb, s, props.get(s, [])):
                     continue
+                if learn is not None:
+                    taken = None
+                    for av, ab in t[2]:
+                        if ab == s:
+                            taken = av
+                    if taken is None and len(t[2]) == 1 and t[4] == 'bool':
+                        taken = 1 - t[2][0][0]
+                    val = dict(val)
+                    if taken is None:
+                        val.pop(learn, None)
+                    else:
+                        val[learn] = ('i', taken)
                 # keep the valuation small: only flags that are still live matter; cheap approximation
                 nv = frozenset(val.items())
                 if nv not in seen[s]:
